@@ -40,6 +40,21 @@ CHECKS = {
             dict(harness="C01_Sources"),
         ],
     },
+    "C02": {
+        "quick": [
+            dict(harness="C02_D1B2", bounds="derivations of depth 1 with at most 2 non-default productions (every production and every pair of productions of: 12 word forms, 7 simple-command shapes, 12 command kinds, pipelines, !, && ||, ; & lists, single-line and multi-line layout); the first character of every word and of every name is symbolic"),
+            dict(harness="C02_D2B2", cover=["arith-in-parentheses"], bounds="derivations of depth 2 with at most 2 non-default productions"),
+            dict(harness="C02_Reserved", bounds="16 reserved words x {argument, for item, case pattern, redirection target, assignment value, case word}"),
+            dict(harness="C02_Closers", bounds="16 programs with a reserved word directly after ) } fi done esac, against the same text with a separator"),
+        ],
+        "thorough": [
+            dict(harness="C02_D1B2"),
+            dict(harness="C02_D2B2", cover=["arith-in-parentheses"]),
+            dict(harness="C02_D2B3", cover=["arith-in-parentheses"], bounds="derivations of depth 2 with at most 3 non-default productions", timeout="40m"),
+            dict(harness="C02_Reserved"),
+            dict(harness="C02_Closers"),
+        ],
+    },
     "C04": {
         "quick": [
             dict(harness="C04_T0", cover=["accepted"], bounds="43 concrete templates"),
@@ -285,6 +300,8 @@ META = {
     "C01": dict(text="Totality of ParseCommands within bounds: every feasible path of the real lexer/parser SSA over N free runes (N<=3 quick, 4 thorough), "
                      "over every template with symbolic holes, with symbolic alias tables, under panicnil 0 and 1, ends without caller panic, background-goroutine death, deadlock or budget overrun. " + BOUNDED,
                 note="inputs longer than the bounds, code points outside D and the std decoders behind string/[]byte/io.Reader sources (smoke-tested concretely) are outside the claim; goroutines run under the deterministic baton schedule plus a drain phase after return"),
+    "C02": dict(text="Every derivation produced by the generator within the bounds (each grammar production and each pair of productions, single-line and multi-line layout) is accepted and the AST's position-free skeleton equals the skeleton generated with the derivation, for every value of the symbolic first characters of words and names; reserved words are ordinary words in six non-command positions and are recognised directly after every closing token. " + BOUNDED,
+                note="derivations are enumerated by the executor under a variety budget (at most 2 / 3 non-default productions, depth <= 2); here-documents are covered by C08, layout variation by C09; known finding KF-C02-arith-in-parentheses"),
     "C04": dict(text="Intrinsic (source, AST) check on every accepting path within the bounds: the source characters at each recorded position spell the documented token (operators, reserved words, quote characters, $ ${ $(( ( ) ` names, literals, #), Pos/End inside the source, Pos <= End, non-empty nodes have non-zero End, children nest, siblings are ordered; columns in characters (non-ASCII representatives included). The source runes are symbolic, so spelling is a solver obligation. " + BOUNDED,
                 note="alias-free; literal spelling is skipped when the source contains a line continuation; when the source contains '<<' only the starts of siblings/children are compared (a here-document redirection ends at its delimiter line); Comment.End is excluded as the property says"),
     "C05": dict(text="Metamorphic round trip on every accepting path within the bounds, for every bit pattern of the printer Config: the printed text is accepted and its skeleton (with ; and newline identified, singleton lists collapsed) equals the original's, here-document bodies byte for byte, node kinds unchanged. " + BOUNDED,
